@@ -36,9 +36,9 @@ func (c16) Meta() Meta {
 
 func c16Params(tier string) (keySetsPerUnit, keyUnits, nGenQ, nGenT int) {
 	if tier == "thorough" {
-		return 4000, 16, 60, 600
+		return 4000, 16, 300, 4000
 	}
-	return 1500, 16, 60, 600
+	return 1500, 16, 300, 4000
 }
 
 func (p c16) sources(tier string, seed int64) []Source {
